@@ -4,8 +4,11 @@ import KtVerif.Spec.Fasta
 
 rust-bio is modelled (not verified) as a line grammar transcribed from its source
 (`fasta::Reader::read`, `fastq::Reader::read`, the `Records` iterators).  `read_line` semantics:
-a line includes its `\n`; the last line may lack it.  `trim_end` removes trailing ASCII white space
-(the well-formed domain is ASCII).  An `Err` from rust-bio becomes a panic in `Sequences::next`
+a line includes its `\n`; the last line may lack it.  `trim_end` and the word split are modelled on ASCII white space.
+The well-formed domain (`wfHeader`) admits bytes >= 128 in ids and descriptions, standing for the bytes of non-ASCII characters;
+the real readers work on `str` and also treat Unicode white space (U+0085, U+00A0, U+1680, U+2000-200A, U+2028/9, U+202F,
+U+205F, U+3000) as white space, so for header text containing those characters the model is not claimed to be faithful: the
+correspondence generators never produce them, and the round-trip theorems are about the byte-level model.  An `Err` from rust-bio becomes a panic in `Sequences::next`
 (`record.unwrap()`), reported as `ParseStatus.panic`.
 -/
 namespace KT
